@@ -677,6 +677,29 @@ func (p *Prog) replacePairCoverage(f *Func) (map[string]bool, *types.Struct) {
 			if len(fs) == 2 && fs[0] == fs[1] {
 				covered[fs[0].Name()] = true
 			}
+			// the same through a named value: v := pair.f.Load(); [if v != nil] replacement.f.Store(v)
+			if len(fs) == 1 && len(x.Args) >= 1 {
+				if id, ok := unparen(x.Args[len(x.Args)-1]).(*ast.Ident); ok {
+					if v, isVar := p.ObjOf(id).(*types.Var); isVar && !v.IsField() {
+						if d, okD := p.SingleDef(f, v); okD && d.Rhs != nil && d.Index == 0 {
+							if dc, isC := unparen(d.Rhs).(*ast.CallExpr); isC {
+								var src []*types.Var
+								ast.Inspect(dc, func(y ast.Node) bool {
+									if sel, ok := y.(*ast.SelectorExpr); ok {
+										if fv := p.FieldOf(sel); fv != nil && p.FieldName(fv) == "CandidatePair."+fv.Name() {
+											src = append(src, fv)
+										}
+									}
+									return true
+								})
+								if len(src) == 1 && src[0] == fs[0] {
+									covered[fs[0].Name()] = true
+								}
+							}
+						}
+					}
+				}
+			}
 			if p.CalleeName(x) == "ice.newCandidatePair" && len(x.Args) == 3 {
 				if p.IsField(x.Args[0], "CandidatePair.Local") {
 					covered["Local"] = true
